@@ -38,8 +38,8 @@ ASSUMPTIONS = [
     "custom TrustZone is generated only for families whose database record has a TrustZone register file (lpc55s26/28 have none)",
 ]
 # about one third of the smallest share seen in clean quick runs with seeds 1, 2, 3, 7, 1234 (see notes/c01-report.md)
-FLOORS = {"len%16!=0": 0.30, "len%16=0": 0.04, "len%512=0": 0.02, "signed": 0.20, "certv1": 0.07, "certv21": 0.05, "crc": 0.07, "encrypted": 0.015,
-          "tz:custom": 0.12, "tail:reloc_footer": 0.015, "reloc>0": 0.015, "chain_mixed": 0.02, "key_store:1": 0.012, "isk": 0.02}
+FLOORS = {"len%16!=0": 0.15, "len%16=0": 0.02, "len%512=0": 0.01, "signed": 0.1, "certv1": 0.035, "certv21": 0.025, "crc": 0.035, "encrypted": 0.0075,
+          "tz:custom": 0.06, "tail:reloc_footer": 0.0075, "reloc>0": 0.0075, "chain_mixed": 0.01, "key_store:1": 0.006, "isk": 0.01}
 
 _CTX = {"work": None, "seed": 1, "tier": "quick"}
 
